@@ -28,16 +28,17 @@ type KnownFinding struct {
 }
 
 type PropMeta struct {
-	Level       string   `json:"level"`
-	Explanation string   `json:"explanation"`
-	Assumptions []string `json:"assumptions"`
-	ReplayPkg   string   `json:"replay_pkg"`  // package dir (relative to repo) the replay driver is injected into
-	ReplayTest  string   `json:"replay_test"` // test function name
-	Bounded     []string `json:"bounded"`
+	Level       string            `json:"level"`
+	Explanation string            `json:"explanation"`
+	Assumptions []string          `json:"assumptions"`
+	ReplayPkg   string            `json:"replay_pkg"`  // package dir (relative to repo) the replay driver is injected into
+	ReplayTest  string            `json:"replay_test"` // test function name
+	Bounded     []string          `json:"bounded"`
 	FrameAllow  []string          `json:"frame_allow"`  // C05: prefixes of modifies designators a request-path function may declare
 	FrameExempt map[string]string `json:"frame_exempt"` // function -> reason (functions that run user code)
-	BoundedPkg  string   `json:"bounded_pkg"`  // package dir (relative to repo) of the bounded stand-in test
-	BoundedTest string   `json:"bounded_test"` // test function name (file: bounded/<id>/bounded_test.go)
+	BoundedPkg  string            `json:"bounded_pkg"`  // package dir (relative to repo) of the bounded stand-in test
+	BoundedTest string            `json:"bounded_test"` // test function name (file: bounded/<id>/bounded_test.go)
+	Audit       []string          `json:"audit"`        // thorough tier: tests of /verif/audit (bounded differential audit of assumed library contracts)
 }
 
 func hasProp(ps []string, id string) bool {
@@ -315,6 +316,17 @@ func runProperty(p *Prog, id, tier string, cfg SolverCfg, verifDir, outDir strin
 			}
 		}
 	}
+	// thorough tier: bounded audit of the assumed library contracts this property relies on
+	auditStats := []string{"not run in the quick tier"}
+	if len(meta.Audit) == 0 {
+		auditStats = []string{"no library audit registered for this property"}
+	} else if tier == "thorough" {
+		stats, out, ok := runAudit(verifDir, meta.Audit)
+		auditStats = stats
+		if !ok {
+			broken = append(broken, "an assumed library contract was refuted by the bounded audit (the machinery's assumption is wrong, not flamego): "+truncate(out, 600))
+		}
+	}
 	if nObl == 0 && len(viols) == 0 {
 		broken = append(broken, "no obligation generated for "+id)
 	}
@@ -346,20 +358,21 @@ func runProperty(p *Prog, id, tier string, cfg SolverCfg, verifDir, outDir strin
 	level := meta.Level
 	cov := map[string]interface{}{
 		"obligations": nObl, "discharged": nDis,
-		"checker_cmd":  fmt.Sprintf("/verif/bin/govc -prop %s -tier %s", id, tier),
-		"trusted_base": tb,
-		"functions_under_contract": funcsUnder,
+		"checker_cmd":                          fmt.Sprintf("/verif/bin/govc -prop %s -tier %s", id, tier),
+		"trusted_base":                         tb,
+		"functions_under_contract":             funcsUnder,
 		"functions_inlined_or_auto_summarised": inlined,
-		"discharged_by_solver": bySolver,
-		"solver_seconds": round3(solverSecs),
-		"load_seconds":   round3(p.loadSecs),
-		"samples":        samples,
-		"known_findings_printed": knownPrinted,
-		"bounded_parts": meta.Bounded,
-		"bounded_stats": boundedStats,
-		"frame_audited_functions": frameAudited,
-		"explanation":   meta.Explanation,
-		"vacuity":       fmt.Sprintf("%d cover checks (entry/exit reachability per function), %d provably unreachable", countCovers(jobs), len(broken)),
+		"discharged_by_solver":                 bySolver,
+		"solver_seconds":                       round3(solverSecs),
+		"load_seconds":                         round3(p.loadSecs),
+		"samples":                              samples,
+		"known_findings_printed":               knownPrinted,
+		"bounded_parts":                        meta.Bounded,
+		"bounded_stats":                        boundedStats,
+		"assumption_audit_bounded":             auditStats,
+		"frame_audited_functions":              frameAudited,
+		"explanation":                          meta.Explanation,
+		"vacuity":                              fmt.Sprintf("%d cover checks (entry/exit reachability per function), %d provably unreachable", countCovers(jobs), len(broken)),
 	}
 	if len(samples) == 0 {
 		cov["samples"] = []map[string]interface{}{{"note": "no obligation discharged"}}
@@ -534,4 +547,25 @@ func runBounded(repo, verifDir, id string, meta PropMeta, seed int, tier, input 
 		}
 	}
 	return stats, fails, out
+}
+
+// runAudit runs the named tests of /verif/audit: bounded differential tests of the assumed
+// standard-library contracts (trusted/*.spec) against the library actually linked.
+func runAudit(verifDir string, tests []string) (stats []string, out string, ok bool) {
+	ctx, cancel := context.WithTimeout(context.Background(), 20*time.Minute)
+	defer cancel()
+	cmd := exec.CommandContext(ctx, "go", "test", "-count=1", "-v", "-run", "^("+strings.Join(tests, "|")+")$", ".")
+	cmd.Dir = filepath.Join(verifDir, "audit")
+	cmd.Env = append(os.Environ(), "GOFLAGS=-mod=mod", "GOPROXY=off", "GOSUMDB=off", "GOTOOLCHAIN=local", "GOCACHE="+filepath.Join(os.TempDir(), "govc-gocache"))
+	var buf bytes.Buffer
+	cmd.Stdout = &buf
+	cmd.Stderr = &buf
+	err := cmd.Run()
+	out = buf.String()
+	for _, line := range strings.Split(out, "\n") {
+		if j := strings.Index(line, "AUDIT-STATS "); j >= 0 {
+			stats = append(stats, strings.TrimSpace(line[j+len("AUDIT-STATS "):]))
+		}
+	}
+	return stats, out, err == nil && len(stats) > 0
 }
